@@ -604,17 +604,26 @@ func (r *run) opDeriveCache(op core.Op) {
 		// The caller is done with the secret and wipes what it was handed,
 		// as a signer does; the next caller of the same path must still get
 		// the key (round 15: the cache handed out an alias of its entry).
-		priv.Zero()
-		again, err2 := r.scoped(si).DeriveFromKeyPathCache(kp)
-		r.env.Count("probe.derivecache-after-caller-wiped-its-copy")
-		if err2 != nil || again == nil {
-			r.fail("privkey-wrong:accessor=DeriveFromKeyPathCache:after-caller-wipe",
-				"DeriveFromKeyPathCache(%+v) answered a moment ago; after the caller wiped its copy it fails: %v", kp, err2)
-		} else if !bytesEq(again.Serialize(), k.PrivBytes()) {
-			r.fail("privkey-wrong:accessor=DeriveFromKeyPathCache:after-caller-wipe",
-				"DeriveFromKeyPathCache(%+v) returns a key that is not the seed's child after an earlier caller wiped the key it had been handed", kp)
+		// (twice: the first repeat is served from the cache, and wiping
+		// THAT one is what empties an aliased entry)
+		prev := priv
+		for rep := 0; rep < 2; rep++ {
+			prev.Zero()
+			again, err2 := r.scoped(si).DeriveFromKeyPathCache(kp)
+			r.env.Count("probe.derivecache-after-caller-wiped-its-copy")
+			if err2 != nil || again == nil {
+				r.fail("privkey-wrong:accessor=DeriveFromKeyPathCache:after-caller-wipe",
+					"DeriveFromKeyPathCache(%+v) answered a moment ago; after the caller wiped its copy it fails: %v", kp, err2)
+				return
+			}
+			if !bytesEq(again.Serialize(), k.PrivBytes()) {
+				r.fail("privkey-wrong:accessor=DeriveFromKeyPathCache:after-caller-wipe",
+					"DeriveFromKeyPathCache(%+v) returns a key that is not the seed's child after an earlier caller wiped the key it had been handed (repeat %d)", kp, rep+1)
+				return
+			}
+			prev = again
 		}
-		again.Zero()
+		prev.Zero()
 	}
 }
 
